@@ -341,6 +341,16 @@ def extract(repo):
                     and re.sub(r"\s+", "", assigns[1]) == "strlen(v->name->symbol.name)"
                     and bool(re.search(r"if\s*\(\s*strlen\(\s*v->name->symbol\.name\s*\)\s*>\s*max_indent\s*\)", head)))
 
+    # ---- which previous_op EXPRop2__out hands to its two operands (an operand of the same operator drops its parentheses
+    # when it is handed the parent's operator)
+    op2b = _strip_c_comments(_body(pe, r"void\s+EXPRop2__out\s*\([^)]*\)\s*\{"))
+    calls = re.findall(r"EXPR__out\(\s*eo->op([12])\s*,\s*1\s*,\s*([\w>-]+)\s*\)", op2b)
+    if [c[0] for c in calls] != ["1", "2"] or any(c[1] not in ("eo->op_code", "OP_UNKNOWN") for c in calls):
+        raise ValueError(f"EXPRop2__out: operand calls not recognised ({calls})")
+    left_sees, right_sees = calls[0][1] == "eo->op_code", calls[1][1] == "eo->op_code"
+    if not left_sees:
+        raise ValueError("EXPRop2__out: the left operand is no longer handed the parent operator (model assumes it is)")
+
     # ---- spellings of the constants PI and e at both printers (EXPR__out: wrap, EXPRstring: strcpy into the buffer)
     const_sp = []
     for cname in ("PI", "E"):
@@ -405,6 +415,8 @@ def extract(repo):
     L.append("def remarkSites : List (String × String × Bool) := " + _llist([f"({_lstr(a)}, {_lstr(b)}, {'true' if c else 'false'})" for a, b, c in remark_sites]))
     L.append("/-- `SCOPElocals_out` sizes the name column by the longest local name (so `if( !max_indent ) return;` means: no locals) -/")
     L.append(f"def localsWidthIsNameLength : Bool := {'true' if locals_plain else 'false'}")
+    L.append("/-- `EXPRop2__out` hands its operator to the RIGHT operand as previous_op (so `a + (b + c)` loses its parentheses) -/")
+    L.append(f"def rightOperandSeesParent : Bool := {'true' if right_sees else 'false'}")
     L.append("/-- what exppp writes for the constants: (constant, printer: wrap = EXPR__out / buffer = EXPRstring, text) -/")
     L.append("def constSpellings : List (String × String × String) := " + _llist([f"({_lstr(a)}, {_lstr(b)}, {_lstr(c)})" for a, b, c in const_sp]))
     L.append(f"def piText : String := {_lstr([c for a, b, c in const_sp if a == 'PI' and b == 'wrap'][0])}")
